@@ -44,7 +44,14 @@ func VerifC02MapOrder() {
 	keys := []string{"b", "a", "c"}[:n]
 	var m any
 	v := []int{nd.IntIn(0, 9), nd.IntIn(0, 9), nd.IntIn(0, 9)}
-	switch nd.Choice(4) {
+	switch nd.Choice(5) {
+	case 4: // interface-keyed map mixing numbers, strings and booleans (as YAML decoding produces)
+		mm := map[any]any{"b": v[0], 2: v[1]}
+		if n == 3 {
+			mm[1.5] = v[2]
+		}
+		m = mm
+		nd.SymOrderMap(mm)
 	case 3: // keys are solver variables too: pairwise distinct strings over a small alphabet
 		k1, k2 := nd.StringFrom(1, "aAbB_1"), nd.StringFrom(1, "aAbB_1")
 		nd.Assume(k1 != k2)
